@@ -333,6 +333,28 @@ def r_listsib(E):
                 f"model ends up holding a list that differs from what the Python operation produces", rel, fn.lineno, where))
         elif len(res.samples) < 5:
             res.samples.append({"mutator": where, "shadow": shadow, "real": real, "verdict": "same operation"})
+    # in every method of the class (the mutators, the helper they may share): the receiver leaves its container only once
+    # the ModelingUpdate that can still refuse the change has gone through — detached first, a refused change leaves a
+    # model whose list no longer knows its container
+    for fn in pm.own_methods(W) if W in pm.classes else []:
+        for n in ast.walk(fn):
+            for fld in ("body", "orelse", "finalbody"):
+                blk = getattr(n, fld, None)
+                if not (isinstance(blk, list) and blk and isinstance(blk[0], ast.stmt)):
+                    continue
+                det = [i for i, st in enumerate(blk) if norm(st) == "self.set_modeling_obj_container(None, None)"]
+                upd = [i for i, st in enumerate(blk) if any(isinstance(c_, ast.Call) and isinstance(c_.func, ast.Name)
+                                                            and c_.func.id == "ModelingUpdate" for c_ in ast.walk(st))]
+                if det and upd:
+                    res.instances += 1
+                    if min(det) < min(upd):
+                        res.findings.append(Finding(
+                            "R-LISTSIB", f"{W}.{fn.name} detaches the receiver before the update",
+                            f"{W}.{fn.name} detaches the list from its container (`self.set_modeling_obj_container(None, None)`) "
+                            f"*before* running the ModelingUpdate that installs the new content: when the update refuses the "
+                            f"change (a value of the wrong class, an object of another system) or fails while recomputing, the "
+                            f"list the model still holds has lost its container — the refused operation has changed the model",
+                            rel, blk[min(det)].lineno, f"{W}.{fn.name}"))
     res.floor = 9
     return res
 
